@@ -18,7 +18,7 @@ SHRINK_RUNS = 400
 TIME_BUDGET = {'quick': 150, 'thorough': 1500}
 REQUIRED = {
     'quick': {'death_with_unread_result': 100, 'death_while_enqueueing': 100, 'all_dead': 100, 'poison_reaches_every_worker': 20,
-              'refusing_enqueue_fn': 100, 'extra_pending_multi_worker': 100, 'per_worker_callable_source': 100},
+              'refusing_enqueue_fn': 100, 'extra_pending_multi_worker': 100, 'per_worker_callable_source': 100, 'realpool': 30, 'realpool_sigkill': 8},
     'thorough': {'death_with_unread_result': 1000, 'death_while_enqueueing': 1000, 'all_dead': 1000, 'poison_reaches_every_worker': 200,
                  'refusing_enqueue_fn': 1000, 'extra_pending_multi_worker': 1000, 'per_worker_callable_source': 1000},
 }
@@ -67,6 +67,21 @@ _exh = {'complete': 0, 'capped': 0}
 
 
 def exhaustive(tier, shard, nshards):
+    # randomized runs on real thread/process/remote workers with SIGKILLs at generated delays (own seeded Hypothesis stream)
+    import os
+    import hypothesis
+    from hypothesis import given
+    from core import hyp_settings, shard_seed
+    real = []
+
+    @hypothesis.seed(shard_seed(int(os.environ.get('VERIF_SEED_EFFECTIVE', '1')), 'C07real', shard))
+    @hyp_settings(4 if tier == 'quick' else 40)
+    @given(realpool_strategy())
+    def collect(c):
+        real.append(c)
+    collect()
+    for c in real:
+        yield c
     cfgs = dfs_configs(tier)
     for ci, cfg in enumerate(cfgs):
         if ci % nshards != shard:
@@ -93,7 +108,99 @@ def exhaustive(tier, shard, nshards):
                 break
 
 
+def realpool_strategy():
+    from hypothesis import strategies as st
+    return st.fixed_dictionaries({
+        'realpool': st.just(True),
+        'workers': st.lists(st.sampled_from(['thread', 'process', 'process', 'remote']), min_size=1, max_size=3),
+        'inputs': st.lists(st.tuples(st.integers(0, 30), st.sampled_from([False] * 15 + [True])).map(list), min_size=5, max_size=30),
+        'extra': st.integers(0, 2),
+        'kills': st.lists(st.tuples(st.integers(0, 2), st.integers(0, 400)).map(list), max_size=2),     # (worker index, delay in ms after run() starts)
+    })
+
+
+def run_realpool(case, ctx):
+    import os
+    import signal
+    import threading
+    import time
+    from core import bounded, Blocked, census, kill_pids
+    import injcases as IC
+    import vtargets
+    from pyworkers.pool import Pool, PoolError
+    from pyworkers.worker import WorkerType
+    out = Out()
+    out.label('realpool')
+    before = set(census(ctx.tag))
+    srv = IC.server(ctx) if 'remote' in case['workers'] else None
+    before = set(census(ctx.tag))
+    inputs = [[i, ms, poison] for i, (ms, poison) in enumerate(case['inputs'])]
+    pool = Pool(vtargets.pool_item, retry=True, close_timeout=1, name='realpool')
+    stop = threading.Event()
+    try:
+        ws = []
+        for k in case['workers']:
+            kw = {'host': srv.addr} if k == 'remote' else {}
+            ws.append(bounded(pool.add_worker, 30, {'thread': WorkerType.THREAD, 'process': WorkerType.PROCESS, 'remote': WorkerType.REMOTE}[k], **kw))
+        kills = [(ws[i % len(ws)], d) for i, d in case['kills'] if not ws[i % len(ws)].is_thread]
+
+        def killer():
+            t0 = time.monotonic()
+            for w, d in sorted(kills, key=lambda x: x[1]):
+                while time.monotonic() - t0 < d / 1000.0 and not stop.is_set():
+                    time.sleep(0.002)
+                if stop.is_set():
+                    return
+                try:
+                    os.kill(w.pid, signal.SIGKILL)
+                except (ProcessLookupError, PermissionError):
+                    pass
+        kt = threading.Thread(target=killer, daemon=True)
+        kt.start()
+        res = None
+        try:
+            r = bounded(pool.run, 90, iter([[x] for x in inputs]) if False else iter(inputs), worker_extra_pending_inputs=case['extra'])
+            res = ('return', r)
+        except PoolError as e:
+            res = ('poolerror', e.partial_results)
+        except Blocked:
+            res = ('blocked', None)
+        except Exception as e:
+            res = ('internal', type(e).__name__ + ': ' + str(e)[:150])
+        stop.set()
+        n_poison = sum(1 for x in inputs if x[2])
+        site = 'realpool:' + '+'.join(sorted(set(case['workers']))) + (':kills' if kills else '') + (':poison' if n_poison else '')
+        if kills:
+            out.label('realpool_sigkill')
+        if n_poison:
+            out.label('realpool_poison')
+        out.nontrivial = bool(kills) or n_poison > 0 or (case['extra'] >= 1 and len(ws) >= 2)
+        if res[0] == 'blocked':
+            out.viol('deadlock', site, 'Pool.run on real workers did not finish within 90 s')
+        elif res[0] == 'internal':
+            out.viol('internal_error:' + res[1].split(':')[0], site, res[1])
+        elif res[0] == 'return':
+            vals = res[1] or []
+            exp = sorted(('r', x[0]) for x in inputs)
+            if sorted(vals) != exp:
+                missing = [e for e in exp if e not in vals]
+                dup = sorted(set(v for v in vals if vals.count(v) > 1))
+                out.viol('missing' if missing else ('duplicate' if dup else 'foreign_value'), site, f'normal return: missing {missing[:5]} duplicated {dup[:5]} ({len(vals)} results for {len(inputs)} inputs)')
+        out.obs = {'end': res[0], 'workers': case['workers'], 'inputs': len(inputs), 'poison': n_poison, 'kills': [d for _, d in kills]}
+        out.label('end:' + res[0])
+    finally:
+        stop.set()
+        try:
+            bounded(pool.terminate, 30, timeout=1)
+        except BaseException:
+            pass
+        kill_pids([p for p in census(ctx.tag) if p not in before])
+    return out
+
+
 def run_case(case, ctx):
+    if case.get('realpool'):
+        return run_realpool(case, ctx)
     dfs = bool(case.get('dfs'))
     out, sim = poolcases.run(case, WHICH, dfs=dfs)
     if dfs:
@@ -139,3 +246,8 @@ def _enq_dead_unread(case, outd, v):
 
 TRIGGERS = {'enqueue_to_dead_worker_with_unread_result': _enq_dead_unread}
 simplify = poolcases.simplify
+
+
+def teardown_shard(ctx):
+    import injcases as IC
+    IC.stop_server(ctx)
